@@ -1149,8 +1149,9 @@ pub fn mode_ising_steps(seed: u64, thorough: bool) {
     let ladders = if thorough { 1400 } else { 280 };
     for l in 0..ladders {
         let n = 2 + (l % 7) as usize; // 2..8, odd and even
-        let kind = g.below(6);
-        let specs = ising_ladder(&mut g, n, kind, false);
+        let kind = g.below(9);
+        let specs = ising_ladder(&mut g, n, kind, true);
+        let safe = specs.iter().any(|s| s.tiny);
         let log = new_log();
         let mut tc = match build_ising(&mut g, &specs, &log) {
             Ok(t) => t,
@@ -1161,14 +1162,40 @@ pub fn mode_ising_steps(seed: u64, thorough: bool) {
             }
         };
         stat(&format!("i.ladder_kind_{}", kind), 1);
-        if equilibrate(&mut tc, &mut g).is_err() {
+        if equilibrate_s(&mut tc, &mut g, safe).is_err() {
             stat("i.equilibration_panicked", 1);
             continue;
         }
-        // a short history: step, a few time steps, step (cached equalities, counters)
-        let steps = if thorough { 3 } else { 2 };
+        if safe {
+            // observation for small energy units (reported, not judged here): does the library's own verify()
+            // accept these legal strings, and does `timestep` (debug_assert!(self.verify())) survive?
+            for (q, beta) in tc.graph_ref() {
+                let sound = replica_sound(&q.q).is_ok();
+                let propagates = propagate_check(q.q.get_manager_ref(), q.q.state_ref()).map(|s| s == q.q.state_ref()).unwrap_or(false);
+                if sound && propagates && q.q.get_n() > 0 {
+                    stat("tiny.legal_consistent_nonempty_strings", 1);
+                    if !q.q.self_verify() {
+                        stat("tiny.verify_false_on_legal_string", 1);
+                    }
+                    let mut c = q.q.clone();
+                    let b = *beta;
+                    if catch(move || {
+                        c.timestep(b);
+                    })
+                    .is_err()
+                    {
+                        stat("tiny.timestep_panics", 1);
+                    }
+                }
+            }
+        }
+        // a short history: step, a few time steps, step (cached equalities, counters, migrated managers)
+        let steps = if kind >= 6 { 4 } else if thorough { 3 } else { 2 };
         let mut hist = hist_of(n);
         for s in 0..steps {
+            if g.chance(1, 3) {
+                grow_managers_by_hand(&mut tc, &mut g);
+            }
             match step_case(&tc, g.next(), true, &mut hist) {
                 Ok((next, _)) => {
                     tc = next;
@@ -1182,7 +1209,8 @@ pub fn mode_ising_steps(seed: u64, thorough: bool) {
             }
             if s + 1 < steps {
                 let t = 1 + g.below(4) as usize;
-                if catch(|| tc.timesteps(t)).is_err() {
+                if advance(&mut tc, t, safe).is_err() {
+                    stat("i.replica_update_panicked", 1);
                     break;
                 }
             }
@@ -1338,15 +1366,54 @@ pub fn mode_pairs(seed: u64, thorough: bool) {
                 b.h = a.h + 0.25;
             }
         }
+        // families: small energy units (everything scaled by 2^-56 / 2^-58, beta by the inverse: the two
+        // Hamiltonians differ by far less than f64::EPSILON in absolute terms); RVB updates on (with the
+        // multigraphs of `random_graph`, incl. opposite-sign parallel edges, a bond operator can move to a twin edge)
+        let fam = g.below(5);
+        if fam == 0 {
+            let sc = if g.coin() { (2.0f64).powi(-56) } else { (2.0f64).powi(-58) };
+            for s in [&mut a, &mut b] {
+                for e in s.edges.iter_mut() {
+                    e.1 *= sc;
+                }
+                s.gamma *= sc;
+                s.h *= sc;
+                s.beta /= sc;
+                s.tiny = true;
+            }
+            stat("pair.i.small_units", 1);
+        } else if fam == 1 && variant != 2 {
+            // give one edge an opposite-sign twin in both graphs
+            let k = g.below(a.edges.len() as u64) as usize;
+            let (e, ja) = a.edges[k];
+            let jb = b.edges[k].1;
+            let (ma, mb) = (g.range(1, 8) as f64 / 4.0, g.range(1, 8) as f64 / 4.0);
+            a.edges.push((e, -ja.signum() * ma));
+            b.edges.push((e, -jb.signum() * mb));
+            a.rvb = true;
+            b.rvb = true;
+            a.h = 0.0;
+            b.h = 0.0;
+            stat("pair.i.opposite_twin_edges_rvb", 1);
+        }
+        let safe = a.tiny;
         let mut qa = make_ising(&a, g.next());
         let mut qb = make_ising(&b, g.next());
         let ta = 2 + g.below(12) as usize;
         if catch(|| {
-            qa.timesteps(ta, a.beta);
-            qb.timesteps(ta, b.beta);
+            if safe {
+                for _ in 0..ta {
+                    qa.safe_step(a.beta);
+                    qb.safe_step(b.beta);
+                }
+            } else {
+                qa.timesteps(ta, a.beta);
+                qb.timesteps(ta, b.beta);
+            }
         })
         .is_err()
         {
+            stat("pair.i.update_panicked", 1);
             continue;
         }
         let can = qa.can_swap_graphs(&qb).is_ok();
@@ -1406,6 +1473,10 @@ pub fn mode_pairs(seed: u64, thorough: bool) {
         // the public swap on samplers with different cutoffs: strings and states exchanged, both cutoffs raised to the larger
         if can && same_shape {
             let (mut xa, mut xb) = (qa.clone(), qb.clone());
+            if g.chance(1, 3) {
+                let to = xa.mgr_cutoff() + 1 + g.below(15) as usize;
+                xa.grow_manager(to);
+            }
             let (ca, cb) = (xa.get_cutoff(), xb.get_cutoff());
             let input = format!(
                 "swapg {} {} {} {} {} {} {} {}",
@@ -1520,7 +1591,7 @@ pub fn mode_pairs(seed: u64, thorough: bool) {
 /// A ladder that is grown *between* tempering steps: add, step(s), add, step(s), … up to `reps.len()`
 /// replicas, continuing with the serial or the rayon result at random. Every step is a full case
 /// (bisection, decision log, one decision per neighbour pair of the current ladder).
-pub fn grow_history<Q: Rep>(reps: Vec<(Q, f64)>, g: &mut SplitMix64, k0: usize) {
+pub fn grow_history<Q: Rep>(reps: Vec<(Q, f64)>, g: &mut SplitMix64, k0: usize, safe: bool) {
     let total = reps.len();
     let mut tc: TC<Q> = TemperingContainer::new(RecRng::new(0));
     let mut hist = String::new();
@@ -1543,9 +1614,12 @@ pub fn grow_history<Q: Rep>(reps: Vec<(Q, f64)>, g: &mut SplitMix64, k0: usize) 
     }
     loop {
         let t = 2 + g.below(8) as usize;
-        if catch(|| tc.timesteps(t)).is_err() {
+        if advance(&mut tc, t, safe).is_err() {
             stat("grow.replica_update_panicked", 1);
             return;
+        }
+        if g.chance(1, 4) {
+            grow_managers_by_hand(&mut tc, g);
         }
         let steps_here = 1 + g.below(2) as usize;
         for _ in 0..steps_here {
@@ -1593,8 +1667,8 @@ pub fn mode_grow(seed: u64, thorough: bool) {
                 (0..total).map(|_| one.clone()).collect::<Vec<_>>()
             }
             _ => {
-                let kind = 1 + g.below(5);
-                ising_ladder(&mut g, total, kind, false)
+                let kind = 1 + g.below(8);
+                ising_ladder(&mut g, total, kind, true)
             }
         };
         for (i, s) in specs.iter_mut().enumerate() {
@@ -1606,7 +1680,8 @@ pub fn mode_grow(seed: u64, thorough: bool) {
         stat(&format!("grow.i.flavour_{}", flavour), 1);
         let reps: Vec<(IsingQ, f64)> = specs.iter().map(|s| (make_ising(s, g.next()), s.beta)).collect();
         let k0 = (l % 3) as usize; // start from 0, 1 or 2 replicas
-        grow_history(reps, &mut g, k0.max(if l % 7 == 0 { 0 } else { 1 }));
+        let safe = specs.iter().any(|s| s.tiny);
+        grow_history(reps, &mut g, k0.max(if l % 7 == 0 { 0 } else { 1 }), safe);
     }
     let gruns = if thorough { 50 } else { 10 };
     for l in 0..gruns {
@@ -1623,7 +1698,7 @@ pub fn mode_grow(seed: u64, thorough: bool) {
             })
             .collect();
         if let Ok(reps) = reps {
-            grow_history(reps, &mut g, 1 + (l % 2) as usize);
+            grow_history(reps, &mut g, 1 + (l % 2) as usize, false);
         }
     }
 }
